@@ -101,6 +101,7 @@ def requirement(f, rq, entry=None):
       cmp-const     {fn, ops, const, min}  fn contains at least `min` comparisons of the given kinds with the constant
       guarded-by    {ops, const | (len), min, fn?}  the entry's function has `min` comparisons with the constant / a len() that dominate a site of the
                                            entry and send one outcome away from it (the guard the written reason quotes)
+      calls-guarded {fn, ops, const, except?}  every call of fn is dominated, in the calling body, by a deciding comparison with the constant
       cmp-len       {fn, ops, min}         fn contains at least `min` comparisons of the given kinds in which one side is a len()
       variants-subset {producer, consumer, adt}  every variant the producer's match names has an arm in the consumer's match"""
     k = rq["kind"]
@@ -120,11 +121,28 @@ def requirement(f, rq, entry=None):
     if k in ("callers-only", "const-arg"):
         bad = set()
         n = 0
+        callers_of = {}
+        if k == "callers-only":
+            for bid, b in f.bodies.items():
+                for bi, t in F.calls(b):
+                    cal = t.get("resolved") or t.get("callee")
+                    if cal:
+                        callers_of.setdefault(cal, set()).add(_owner_fn(bid))
+
+        def allowed(x, depth=0, seen=()):
+            """x is one of the listed callers, or a private helper all of whose callers are (an extracted function)"""
+            if x in rq["callers"]:
+                return True
+            bx = f.bodies.get(x)
+            if bx is None or bx.get("pub") or depth > 3 or x in seen:
+                return False
+            cs = callers_of.get(x, set()) - {x}
+            return bool(cs) and all(allowed(c, depth + 1, seen + (x,)) for c in cs)
         for bid, b in f.bodies.items():
             for bi, t in F.calls(b):
                 if (t.get("resolved") or t.get("callee")) == rq["fn"] or t.get("callee") == rq["fn"]:
                     n += 1
-                    if k == "callers-only" and _owner_fn(bid) not in rq["callers"]:
+                    if k == "callers-only" and not allowed(_owner_fn(bid)):
                         bad.add(_owner_fn(bid))
                     if k == "const-arg" and t["args"][rq["arg"]][0] != "const":
                         from flow import Flow
@@ -192,6 +210,39 @@ def requirement(f, rq, entry=None):
         if n < rq["min"]:
             return False, "%s has %d guarding %s-comparison(s) with %s in front of the site (reviewed: %d)" % (fn, n, "/".join(rq["ops"]), what, rq["min"])
         return True, "%s: %d guarding %s-comparison(s) with %s" % (fn, n, "/".join(rq["ops"]), what)
+    if k == "calls-guarded":
+        # every call of `fn` (outside the bodies listed in `except`) is dominated, in its own body, by a comparison with the constant one of
+        # whose outcomes cannot reach the call
+        from cfg import CFG
+        bad = []
+        n = 0
+        for bid, b in f.bodies.items():
+            if _owner_fn(bid) in rq.get("except", []):
+                continue
+            sites = [bi for bi, t in F.calls(b) if (t.get("resolved") or t.get("callee")) == rq["fn"] or t.get("callee") == rq["fn"]]
+            if not sites:
+                continue
+            cfg = CFG(b)
+            for sb in sites:
+                n += 1
+                ok = False
+                for i, bb in enumerate(b["blocks"]):
+                    t = bb["term"]
+                    if t["k"] != "switch" or not cfg.dominates(i, sb):
+                        continue
+                    for st in bb["stmts"]:
+                        if st[0] == "assign" and st[2][0] == "binop" and st[2][1] in rq["ops"] and F.op_local(t["discr"]) == st[1][0] and \
+                                rq["const"] in (F.const_int(st[2][2]), F.const_int(st[2][3])):
+                            succ = {a[1] for a in t["arms"]} | {t.get("otherwise")}
+                            if any(x is not None and x != sb and sb not in cfg.reachable_from(x, avoid={i}) for x in succ):
+                                ok = True
+                if not ok:
+                    bad.append(_owner_fn(bid))
+        if bad:
+            return False, "%s is called in %s without a preceding test against %d" % (rq["fn"], ", ".join(sorted(set(bad))), rq["const"])
+        if n == 0:
+            return False, "%s has no callers" % rq["fn"]
+        return True, "all %d calls of %s follow a test against %d" % (n, rq["fn"], rq["const"])
     if k == "cmp-len":
         from flow import Flow, last_seg
         b = f.body(rq["fn"])
